@@ -188,3 +188,43 @@ CONTRACTS = [Contract("wntr.sim.core:_ValveSourceChecker.should_valve_be_opened/
                       [_checker_case(True, True, _STATES[0], s_) for s_ in _STATES[:2]] +
                       [_checker_case(False, n_, a_, b_) for n_ in (True, False) for a_ in _STATES for b_ in _STATES],
                       note="enumerated: two watched links x their statuses at the last computation and now; the graph searches are stubs")]
+
+
+def _checker_update_case(old, new):
+    """update(action): the graph of links that convey water follows the status the action has just written"""
+    def build(cx):
+        import networkx as nx
+
+        class _El(object):
+            def __init__(self, name, **kw):
+                self.name = name
+                self.__dict__.update(kw)
+        a, b = _El("a"), _El("b")
+        link = _El("L", start_node=a, end_node=b, status=new)
+        other = _El("M", start_node=a, end_node=b, status=_LS.Open)
+        g = nx.MultiGraph()
+        g.add_nodes_from([a, b])
+        g.add_edge(a, b, other)
+        if old != _LS.Closed:
+            g.add_edge(a, b, link)
+        action = _types.SimpleNamespace(target=lambda: (link, "status"))
+        chk = cx.obj(_core._ValveSourceChecker, wn=None, graph=g, _previous_values={(link, "status"): old, (other, "status"): _LS.Open}, _values_at_last_compute={},
+                     _needs_compute=False, _cached_results={}, _first_compute=False)
+        cx.target(_core._ValveSourceChecker.update, chk, action)
+
+        def post(out):
+            if not out.returned:
+                return []
+            has = g.has_edge(a, b, link)
+            gg = lambda x: cx.interp.getattr(chk, x)
+            return [("graph_holds_the_link_iff_it_is_not_closed", has == (new != _LS.Closed)),
+                    ("the_other_link_is_untouched", g.has_edge(a, b, other) and g.number_of_edges() == (2 if has else 1)),
+                    ("a_recomputation_is_requested_iff_the_status_changed", bool(gg("_needs_compute")) == (old != new)),
+                    ("the_new_status_is_remembered", gg("_previous_values")[(link, "status")] == new)]
+        cx.ensure(post)
+    return Case("status %s -> %s" % (old.name, new.name), build, crosscheck=False)
+
+
+CONTRACTS.append(Contract("wntr.sim.core:_ValveSourceChecker.update", P + ["C02"],
+                          [_checker_update_case(o_, n_) for o_ in (_LS.Open, _LS.Closed, _LS.Active) for n_ in (_LS.Open, _LS.Closed, _LS.Active)],
+                          note="enumerated status changes of one watched link beside another link of the same node pair (a networkx MultiGraph, executed natively)"))
